@@ -134,13 +134,45 @@ Proof.
   - apply IH; assumption.
 Qed.
 
+Lemma delivery_start merged start stop bundle B : In B (file_delivery merged start stop bundle) -> start <= bnum B.
+Proof.
+  unfold file_delivery. intros H. apply filter_In in H as [_ H]. apply andb_true_iff in H as [H _].
+  apply N.leb_le in H. exact H.
+Qed.
+
+Lemma through_not_passed merged forked start c stop bundle : start <= rn (cu_blk c) ->
+  through_cursor_run merged forked start c stop bundle = through_resolver_run merged forked start c stop bundle.
+Proof.
+  intros H. unfold through_cursor_run. replace (rn (cu_blk c) <? start) with false; [reflexivity|].
+  symmetry. apply N.ltb_ge. exact H.
+Qed.
+
+Lemma c06_through_passed_proof : C06_through_passed.
+Proof.
+  intros merged forked start c stop bundle H. unfold through_cursor_run.
+  replace (rn (cu_blk c) <? start) with true; [reflexivity|]. symmetry. apply N.ltb_lt. exact H.
+Qed.
+
+(* the code before the fix: chain 1..4, target cursor on block 2 (canonical), start block 3 *)
+Lemma c06_through_passed_unfixed_refuted_proof : C06_through_passed_unfixed_refuted.
+Proof.
+  exists [mkBlock 11 1 1 0; mkBlock 21 2 11 1; mkBlock 31 3 21 1; mkBlock 41 4 31 2], 3,
+         (mkCursor SNew (mkR 21 2) (mkR 21 2) (mkR 11 1)), 4, 100, (mkBlock 21 2 11 1).
+  split.
+  { split; [vm_compute; repeat split; reflexivity|].
+    vm_compute. repeat constructor; intro H; repeat (destruct H as [H|H]; [discriminate H|]); exact H. }
+  split; [vm_compute; tauto|]. split; [reflexivity|]. split; [vm_compute; reflexivity|].
+  split; [vm_compute; discriminate | vm_compute; reflexivity].
+Qed.
+
 Lemma c06_through_on_chain_proof : C06_through_on_chain.
 Proof.
   intros merged forked start c stop bundle B Hc D Hin HB Hlt.
   destruct (bref_eq _ _ HB) as [Hid Hnum].
   assert (HDc : chain_ok D) by (apply c06_delivery_segment_proof; exact Hc).
   pose proof (chain_ok_asc _ HDc) as Hasc.
-  unfold through_cursor_run. fold D.
+  rewrite (through_not_passed merged forked start c stop bundle) by (rewrite <- Hnum; eapply delivery_start; exact Hin).
+  unfold through_resolver_run. fold D.
   destruct (through_split c D Hasc) as (low & mid & top & E & Hl & Hm & Ht & Htasc).
   (* B is the first block of top *)
   assert (HBtop : In B top).
@@ -171,10 +203,11 @@ Qed.
 
 Lemma c06_through_forked_proof : C06_through_forked.
 Proof.
-  intros merged forked start c stop bundle Hc D Hnot (b0 & Hb0 & Hb0l & Hb0b).
+  intros merged forked start c stop bundle Hc D Hstart Hnot (b0 & Hb0 & Hb0l & Hb0b).
   assert (HDc : chain_ok D) by (apply c06_delivery_segment_proof; exact Hc).
   pose proof (chain_ok_asc _ HDc) as Hasc.
-  unfold through_cursor_run. fold D.
+  rewrite (through_not_passed merged forked start c stop bundle) by exact Hstart.
+  unfold through_resolver_run. fold D.
   destruct (through_split c D Hasc) as (low & mid & top & E & Hl & Hm & Ht & Htasc).
   assert (Hb0top : In b0 top).
   { rewrite E in Hb0. apply in_app_or in Hb0. destruct Hb0 as [Hin|Hin].
@@ -194,7 +227,8 @@ Proof.
   intros merged forked start c stop bundle B Hc D Hin HB Hle.
   destruct (bref_eq _ _ HB) as [Hid Hnum].
   assert (HDc : chain_ok D) by (apply c06_delivery_segment_proof; exact Hc).
-  unfold through_cursor_run. fold D.
+  rewrite (through_not_passed merged forked start c stop bundle) by (rewrite <- Hnum; eapply delivery_start; exact Hin).
+  unfold through_resolver_run. fold D.
   destruct (in_split _ _ Hin) as (l1 & l2 & E).
   pose proof (chain_ok_asc _ HDc) as Hasc. rewrite E in Hasc.
   destruct (asc_app_inv _ _ Hasc) as (_ & _ & H12).
